@@ -101,7 +101,7 @@ class SimHarness(HarnessBase):
             k = len(rec['load_calls'])
             if k >= lim['n']:
                 raise TooManyInstants('instant %d computed but the requested grid ends at instant %d' % (k, lim['n'] - 1))
-            v = env.real('load_%d' % k)
+            v = env.real('load') if getattr(self, 'const_load', False) else env.real('load_%d' % k)
             rec['load_calls'].append(dict(t=sival(time), pos=sival(angular_position), spd=sival(angular_speed), val=v))
             return gu.Torque(v, 'Nm')
         last.external_torque = ext
